@@ -327,6 +327,37 @@ func (d opDesc) coqX() string {
 	return "XU (" + d.coq() + ")"
 }
 
+// lentBuf is a buffer handed to Write for the duration of the call only.
+type lentBuf struct {
+	buf  []byte // what Write was given (len = the data, cap = len + spare)
+	want []byte // what the whole array holds once the caller has taken it back
+}
+
+const lentSpare = 24
+
+// lend copies data into a fresh array with spare capacity behind it.
+func lend(data []byte) *lentBuf {
+	arr := make([]byte, len(data)+lentSpare)
+	copy(arr, data)
+	for i := len(data); i < len(arr); i++ {
+		arr[i] = 0xA5
+	}
+	return &lentBuf{buf: arr[:len(data):len(arr)]}
+}
+
+// takeBack overwrites the array (every byte changes) and remembers what it now holds.
+func (l *lentBuf) takeBack() {
+	arr := l.buf[:cap(l.buf)]
+	for i := range arr {
+		arr[i] = ^arr[i] ^ byte(i%7)
+	}
+	l.want = append([]byte(nil), arr...)
+}
+
+func (l *lentBuf) untouched() bool {
+	return l.want == nil || string(l.buf[:cap(l.buf)]) == string(l.want)
+}
+
 type trace struct {
 	Obs    []obsDesc           `json:"obs"`
 	Stored map[string][]string `json:"stored"` // digest -> per registry: "-" or hex summary
@@ -339,6 +370,7 @@ func runScript(out *hx.Out, sc script, origin string) {
 	var mark string
 	marked := false
 	var obs []obsDesc
+	var lents []*lentBuf
 	for _, d := range sc.Ops {
 		var o obsDesc
 		panicked, pv := hx.Recover(func() {
@@ -406,8 +438,14 @@ func runScript(out *hx.Out, sc script, origin string) {
 					o = obsDesc{Res: "broken", Msg: "no writer"}
 					return
 				}
-				data := expand(d.Data)
-				n, err := cur.Write(data)
+				// The caller owns its buffer again as soon as Write has returned (io.Writer:
+				// "Implementations must not retain p"): the bytes are handed over in a
+				// private buffer (with spare capacity behind them) which is overwritten
+				// right after the call, the way a copy loop refills its buffer.
+				lent := lend(expand(d.Data))
+				n, err := cur.Write(lent.buf)
+				lent.takeBack()
+				lents = append(lents, lent)
 				if err != nil {
 					o = errObs(err)
 					if n != 0 {
@@ -447,6 +485,12 @@ func runScript(out *hx.Out, sc script, origin string) {
 		})
 		if panicked {
 			o = obsDesc{Res: "broken", Msg: "panic: " + pv}
+		}
+		// nobody but the caller writes into a buffer the caller has taken back
+		for i, l := range lents {
+			if o.Res != "broken" && !l.untouched() {
+				o = obsDesc{Res: "broken", Msg: fmt.Sprintf("the buffer of Write #%d (%d bytes) was modified after Write had returned (during %s)", i, len(l.buf), d.Op)}
+			}
 		}
 		if cur != nil {
 			p2, _ := hx.Recover(func() {
@@ -702,7 +746,13 @@ func chunkFor(stack string, hint int) int {
 var hintPool = []int{-1, 0, 1, 100, 8192, 8193, 70000}
 
 func sizeNear(r *rand.Rand, c int) int {
-	switch r.Intn(12) {
+	switch r.Intn(15) {
+	case 9:
+		return 2 * c
+	case 10:
+		return 3 * c
+	case 11:
+		return 2*c - 1
 	case 0:
 		return 0
 	case 1:
@@ -762,6 +812,76 @@ func randomPlan(r *rand.Rand, stack string, small bool) script {
 		}
 	}
 	return goodPlan(stack, segs, commit, shape)
+}
+
+// copyLoop is an upload fed the way io.CopyBuffer (or any read loop) feeds a writer: the
+// content goes through one buffer of a fixed size, so all Writes but the last have the size
+// of that buffer - the chunk size in force, one less, one more, a half, a multiple, or an
+// unrelated small size. Optionally a short Write comes first (so the full-size pieces meet a
+// non-empty chunk buffer), and the writer is closed and resumed between two pieces.
+func copyLoop(r *rand.Rand, stack string) script {
+	hint := hintPool[r.Intn(len(hintPool))]
+	c := chunkFor(stack, hint)
+	var b int
+	switch r.Intn(10) {
+	case 0, 1, 2:
+		b = c
+	case 3:
+		b = c - 1
+	case 4:
+		b = c + 1
+	case 5:
+		b = c / 2
+	case 6:
+		b = 2 * c
+	case 7:
+		b = c/3 + 1
+	case 8:
+		b = 1 + r.Intn(40)
+	default:
+		b = 8192 // what a caller that knows nothing about the writer might use
+	}
+	full := 1 + r.Intn(3)
+	if b > c+1 {
+		full = 1 + r.Intn(2)
+	}
+	var writes []int
+	if r.Intn(4) == 0 {
+		writes = append(writes, 1+r.Intn(3))
+	}
+	for i := 0; i < full; i++ {
+		writes = append(writes, b)
+	}
+	switch r.Intn(4) {
+	case 0: // the content is a whole number of buffers
+	case 1:
+		writes = append(writes, 1)
+	case 2:
+		writes = append(writes, b-1)
+	default:
+		writes = append(writes, 1+r.Intn(b))
+	}
+	segs := []planSeg{{mode: "start", hint: hint, writes: writes}}
+	if len(writes) > 1 && r.Intn(3) == 0 {
+		k := 1 + r.Intn(len(writes)-1)
+		// the resumed writer keeps the hint, so the buffer keeps its relation to the chunk size
+		segs = []planSeg{{mode: "start", hint: hint, writes: writes[:k]},
+			{mode: []string{"size", "info", "at"}[r.Intn(3)], hint: hint, writes: writes[k:]}}
+		if segs[1].mode == "info" {
+			n := 0
+			for _, w := range writes[:k] {
+				n += w
+			}
+			if n == 1 {
+				segs[1].mode = "at"
+			}
+		}
+	}
+	commit := "match"
+	if r.Intn(10) == 0 {
+		commit = "prefix"
+	}
+	return goodPlan(stack, segs, commit, "copy-loop")
 }
 
 // withEpisode inserts, at a segment boundary of a good plan, a resume at a wrong offset
@@ -963,31 +1083,50 @@ func main() {
 		enumerate(out, 4, []int{0}, stacks)
 		enumerate(out, 3, []int{1}, []string{"hop1", "hop2"})
 	}
+	// The random scripts are generated in a fixed order but run (and so written to the
+	// evaluation shards) in a striped order: the scripts with long contents - which cost the
+	// most to evaluate - would otherwise sit together in one or two shards.
+	var pend []script
 	nPlan, nEp, nMal := 420, 300, 120
 	if cfg.Thorough() {
 		nPlan, nEp, nMal = 6000, 4000, 1500
 	}
 	for i := 0; i < nPlan; i++ {
 		st := stacks[i%len(stacks)]
-		runScript(out, randomPlan(rnd, st, i%3 == 0), "random")
+		pend = append(pend, randomPlan(rnd, st, i%3 == 0))
 	}
 	for i := 0; i < nEp; i++ {
 		st := stacks[i%len(stacks)]
-		runScript(out, withEpisode(rnd, st), "random")
+		pend = append(pend, withEpisode(rnd, st))
 	}
 	for i := 0; i < nMal; i++ {
 		st := stacks[i%len(stacks)]
-		runScript(out, malformed(rnd, st), "random")
+		pend = append(pend, malformed(rnd, st))
+	}
+	nCopy := 150
+	if cfg.Thorough() {
+		nCopy = 2500
+	}
+	for i := 0; i < nCopy; i++ {
+		// mostly the stacks with a client writer in them
+		st := []string{"hop1", "hop2", "unify-hop1", "hop1", "hop2", "mem", "unify-mem"}[i%7]
+		pend = append(pend, copyLoop(rnd, st))
 	}
 	nFault, nRe := 120, 160
 	if cfg.Thorough() {
 		nFault, nRe = 2500, 3000
 	}
 	for i := 0; i < nFault; i++ {
-		runScript(out, withFault(rnd, []string{"hop1", "hop1", "hop1", "hop2"}[i%4]), "random")
+		pend = append(pend, withFault(rnd, []string{"hop1", "hop1", "hop1", "hop2"}[i%4]))
 	}
 	for i := 0; i < nRe; i++ {
-		runScript(out, recommit(rnd, stacks[i%len(stacks)]), "random")
+		pend = append(pend, recommit(rnd, stacks[i%len(stacks)]))
+	}
+	const stripes = 11
+	for k := 0; k < stripes; k++ {
+		for i := k; i < len(pend); i += stripes {
+			runScript(out, pend[i], "random")
+		}
 	}
 	if err := out.Flush(); err != nil {
 		panic(err)
